@@ -26,6 +26,7 @@ PROPS["C05"] = {
     "units": [
         U("TestVerif_C05_Values", "./pkg/vaa", R(30000), R(150000, shards=16, timeout=900)),
         U("TestVerif_C05_Bytes", "./pkg/vaa", R(60000), R(300000, shards=16, timeout=900)),
+        {"test": "FuzzUnmarshal", "kind": "fuzz", "fuzz": "FuzzUnmarshal", "as_test": "TestVerif_C05_Bytes", "pkg": ".", "thorough": {"fuzztime": "240s", "timeout": 900}},
     ],
 }
 
@@ -266,6 +267,8 @@ def setup():
         seen = set()
         for pid, spec in sorted(PROPS.items()):
             for u in spec["units"]:
+                if u.get("kind") == "fuzz":
+                    continue
                 key = (u.get("module", "node"), u["pkg"], u.get("race", False))
                 if key in seen:
                     continue
